@@ -3,7 +3,7 @@
 //! Implementation-only oracle (the property's own wording, on the real skrifa code, font-test-data
 //! fonts: TrueType static + variable, CFF, CFF2):
 //!   T1  library memory vs caller memory of exactly `draw_memory_size` bytes whose start is offset
-//!       0..7 bytes from an 8-aligned address, zero-filled and garbage-filled: identical pen
+//!       0..7 bytes from an 8-aligned address, garbage-filled (always) and zero-filled: identical pen
 //!       streams and AdjustedMetrics (unhinted FreeType style, unhinted HarfBuzz style, hinted);
 //!   T2  no location vs all-zero coordinate vectors of several lengths;
 //!   T3  a fresh HintingInstance vs one instance reconfigured along EVERY sequence (length <= 3 quick,
@@ -176,9 +176,79 @@ struct FontInfo {
     gids: Vec<u32>,
 }
 
+/// Two synthetic hinted fonts with the same maxp limits and the same fpgm layout, built to make stale
+/// instance state observable:
+///  A: fpgm `PUSHB 0x91; IDEF; PUSHB 0 64; SHPIX; ENDF` (instruction definition for opcode 0x91),
+///     prep `PUSHB 0 128; WS` (storage[0] = 128);
+///  B: fpgm `PUSHB 0; FDEF; PUSHB 0 64; SHPIX; ENDF` (same bytes at the same offsets, but a FUNCTION
+///     definition), empty prep.
+///  glyph 1: `PUSHB 0 0; RS; SHPIX`  — shifts point 0 by storage[0] (0 on a clean instance);
+///  glyph 2: `0x91`                   — undefined opcode on a clean B instance (error, ignored when not
+///     pedantic); with a stale IDEF entry it would run B's fpgm[3..8] and shift point 0 by one pixel.
+fn synthetic_font(variant_a: bool) -> &'static [u8] {
+    use write_fonts::tables::glyf::{GlyfLocaBuilder, Glyph as WGlyph, SimpleGlyph as WSimple};
+    use write_fonts::tables::{head::Head, hhea::Hhea, hmtx::Hmtx, hmtx::LongMetric, loca::LocaFormat, maxp::Maxp};
+    let square = |x0: f64| {
+        let mut p = kurbo::BezPath::new();
+        p.move_to((x0, 0.0));
+        p.line_to((x0, 500.0));
+        p.line_to((x0 + 400.0, 500.0));
+        p.line_to((x0 + 400.0, 0.0));
+        p.close_path();
+        p
+    };
+    let mut g1 = WSimple::from_bezpath(&square(50.0)).unwrap();
+    g1.instructions = vec![0xB1, 0, 0, 0x43, 0x38];
+    let mut g2 = WSimple::from_bezpath(&square(80.0)).unwrap();
+    g2.instructions = vec![0x91];
+    let mut b = GlyfLocaBuilder::new();
+    b.add_glyph(&WGlyph::Empty).unwrap();
+    b.add_glyph(&g1).unwrap();
+    b.add_glyph(&g2).unwrap();
+    let (glyf, loca, fmt) = b.build();
+    let head = Head { units_per_em: 1000, index_to_loc_format: (fmt == LocaFormat::Long) as i16, ..Default::default() };
+    let maxp = Maxp {
+        num_glyphs: 3,
+        max_points: Some(8),
+        max_contours: Some(2),
+        max_composite_points: Some(0),
+        max_composite_contours: Some(0),
+        max_zones: Some(2),
+        max_twilight_points: Some(4),
+        max_storage: Some(4),
+        max_function_defs: Some(2),
+        max_instruction_defs: Some(2),
+        max_stack_elements: Some(32),
+        max_size_of_instructions: Some(16),
+        max_component_elements: Some(0),
+        max_component_depth: Some(0),
+    };
+    let hhea = Hhea { number_of_h_metrics: 3, ..Default::default() };
+    let hmtx = Hmtx::new(vec![LongMetric::new(500, 0), LongMetric::new(500, 50), LongMetric::new(500, 80)], vec![]);
+    let mut fb = write_fonts::FontBuilder::new();
+    fb.add_table(&head).unwrap();
+    fb.add_table(&maxp).unwrap();
+    fb.add_table(&hhea).unwrap();
+    fb.add_table(&hmtx).unwrap();
+    fb.add_table(&glyf).unwrap();
+    fb.add_table(&loca).unwrap();
+    let tag = |t: &[u8; 4]| read_fonts::types::Tag::new(t);
+    if variant_a {
+        fb.add_raw(tag(b"fpgm"), vec![0xB0, 0x91, 0x89, 0xB1, 0, 64, 0x38, 0x2D]);
+        fb.add_raw(tag(b"prep"), vec![0xB1, 0, 128, 0x42]);
+    } else {
+        fb.add_raw(tag(b"fpgm"), vec![0xB0, 0x00, 0x2C, 0xB1, 0, 64, 0x38, 0x2D]);
+    }
+    Box::leak(fb.build().into_boxed_slice())
+}
+
 fn fonts(rng: &mut Rng, thorough: bool) -> Vec<FontInfo> {
     use font_test_data as d;
+    let synth_a = catch(|| synthetic_font(true)).unwrap_or(&[]);
+    let synth_b = catch(|| synthetic_font(false)).unwrap_or(&[]);
     let list: Vec<(&'static str, &'static [u8])> = vec![
+        ("synth_a", synth_a),
+        ("synth_b", synth_b),
         ("tinos_subset", d::TINOS_SUBSET),
         ("tthint_subset", d::TTHINT_SUBSET),
         ("vazirmatn_var", d::VAZIRMATN_VAR),
@@ -500,7 +570,7 @@ fn main() {
 
     // ---------------- KCoords + T2 (zero location == no location)
     {
-        let f = &fonts[0];
+        let f = fonts.iter().find(|f| f.name == "tinos_subset").unwrap_or(&fonts[0]);
         let mut vecs: Vec<Vec<i16>> = vec![vec![], vec![0], vec![0, 0], vec![0; 5], vec![0; 9], vec![1], vec![0, 1], vec![0, 0, -1], vec![-16384, 0], vec![0, 0, 0, 0, 0, 0, 0, 0, 1]];
         for _ in 0..(if thorough { 200 } else { 40 }) {
             let n = rng.below(6) as usize;
@@ -519,6 +589,31 @@ fn main() {
                     st.oracle_failure(json!({"key": format!("coords|{v:?}"), "what": "effective coords differ from `drop all-zero, keep otherwise`", "got": format!("{eff:?}")}));
                 }
                 cw.push(format!("KCoords {} {}", czlist(v.iter().map(|x| *x as i128)), czlist(eff.iter().map(|x| *x as i128))));
+            }
+        }
+    }
+
+    // ---------------- fixed corpus: inputs of defects this check found in /repo (fixed since; must pass)
+    // F-C12-1: HarfBuzzScaler::load_composite read composite_deltas that were never written (variable
+    // font at the default location), so dirty caller memory leaked into component offsets.
+    if let Some(f) = fonts.iter().find(|f| f.name == "vazirmatn_var") {
+        if let Some(g) = f.outlines.get(GlyphId::new(2)) {
+            for size in [None, Some(10.0f32), Some(16.0), Some(33.5)] {
+                let sz = size.map(Size::new).unwrap_or_else(Size::unscaled);
+                let reference = draw_unhinted(&g, sz, &[], Style::Hb, None);
+                let need = g.draw_memory_size(Hinting::None);
+                for off in 0..8usize {
+                    for fill in [0xFFu8, 0xA5, 0x01] {
+                        let mut s = Scratch::new(need, off, None);
+                        s.v.iter_mut().for_each(|b| *b = fill);
+                        let o = draw_unhinted(&g, sz, &[], Style::Hb, Some(s.slice()));
+                        st.evaluations += 1;
+                        st.count("fixed_corpus_draws");
+                        if o != reference {
+                            st.oracle_failure(json!({"key": "mem|vazirmatn_var|g2|[]|Hb|garbage", "what": "caller memory of the advertised size draws differently from library memory", "config": format!("fixed corpus F-C12-1 size {size:?} fill {fill:#x}"), "offset": off, "size": need, "diff": first_diff(&reference, &o)}));
+                        }
+                    }
+                }
             }
         }
     }
@@ -597,7 +692,8 @@ fn main() {
                         let need = g.draw_memory_size(Hinting::None);
                         for off in 0..8usize {
                             for garbage in [false, true] {
-                                if !thorough && garbage && off % 3 != (gi % 3) {
+                                // garbage-filled caller memory always; zero-filled on a subsample in the quick tier
+                                if !thorough && !garbage && off % 4 != gi % 4 {
                                     continue;
                                 }
                                 let mut s = Scratch::new(need, off, if garbage { Some(&mut rng) } else { None });
@@ -626,7 +722,7 @@ fn main() {
                 let need = g.draw_memory_size(Hinting::Embedded);
                 for off in 0..8usize {
                     for garbage in [false, true] {
-                        if !thorough && (off + gi) % 2 == 1 {
+                        if !thorough && !garbage && (off + gi) % 2 == 1 {
                             continue;
                         }
                         let mut s = Scratch::new(need, off, if garbage { Some(&mut rng) } else { None });
@@ -669,7 +765,7 @@ fn main() {
                                 if !thorough && (n + off + gi) % 2 == 1 && n + 6 < need {
                                     continue;
                                 }
-                                let mut s = Scratch::new(n, off, None);
+                                let mut s = Scratch::new(n, off, Some(&mut rng));
                                 let addr = s.addr();
                                 let o = match which {
                                     0 => draw_unhinted(&g, Size::new(16.0), &[], Style::Ft, Some(s.slice())),
@@ -745,6 +841,8 @@ fn main() {
             }
         };
         let ax = |n: &str| fonts.iter().find(|f| f.name == n).map(|f| f.axes).unwrap_or(0);
+        add("synth_a", Some(16.0), vec![], 0, tgts[1]);
+        add("synth_b", Some(16.0), vec![], 0, tgts[1]);
         add("tinos_subset", Some(16.0), vec![], 0, tgts[0]);
         add("tinos_subset", Some(9.0), vec![], 0, tgts[1]);
         add("tthint_subset", Some(24.0), vec![], 0, tgts[3]);
@@ -775,6 +873,19 @@ fn main() {
                 check_wf(&mut st, "pool", &format!("{}|g{}", c.key(&fonts), g), o);
             }
         }
+    }
+    // self-check of the synthetic fonts: A's prep/IDEF must visibly move point 0 (otherwise the reuse
+    // test could not notice stale storage / stale instruction definitions)
+    {
+        let out = |name: &str, k: usize| -> Option<String> {
+            let i = pool.iter().position(|c| fonts[c.font].name == name)?;
+            fresh[i].as_ref().ok().and_then(|v| v.get(k)).map(short)
+        };
+        let eff_storage = out("synth_a", 1).is_some() && out("synth_a", 1) != out("synth_b", 1);
+        let eff_idef = out("synth_a", 2).is_some() && out("synth_a", 2) != out("synth_b", 2);
+        st.v.insert("synth_probe".into(), json!({"a_g1": out("synth_a", 1), "b_g1": out("synth_b", 1), "a_g2": out("synth_a", 2), "b_g2": out("synth_b", 2),
+            "storage_program_effective": eff_storage, "idef_program_effective": eff_idef}));
+        st.count(if eff_storage && eff_idef { "synth_fonts_effective" } else { "synth_fonts_INEFFECTIVE" });
     }
     let max_len = if thorough { 4 } else { 3 };
     {
